@@ -87,7 +87,7 @@ func runBind(c BindCase) (*bindStats, error) {
 	default:
 		st, err = runBindControl(c)
 	}
-	if err != nil && strings.HasPrefix(err.Error(), "harness:") && strings.Contains(err.Error(), "timed out") {
+	if err != nil && strings.HasPrefix(err.Error(), "harness:") && containsAny(err.Error(), "timed out", "EOF", "reset by peer", "broken pipe", "use of closed") {
 		// bringing the victim to its state took longer than its (deliberately short) timeouts on a busy machine:
 		// the set-up steps are not what this check is about
 		st.Inconcl++
